@@ -18,6 +18,7 @@ Definition lout_eqb (m o : lout) : bool :=
   match m, o with
   | ONone, ONone => true
   | OPunch a, OPunch b => list_eqb ap_eqb (msort a) (msort b)
+  | OBool a, OBool b => Bool.eqb a b
   | OList p a r n, OList p' a' r' n' =>
       Bool.eqb p p' && list_eqb ap_eqb a a' && list_eqb addr_eqb r r' && list_eqb count_eqb n n'
   | _, _ => false
@@ -29,6 +30,12 @@ Definition lout_eqb (m o : lout) : bool :=
 Definition usable (c : config) (peers : list addr) (x : ap) : bool :=
   let a := unmap_addr (ap_addr x) in   (* the host the address designates *)
   negb (in_my c a) && global_allow c a && existsb (fun v => inside_allow c v a) peers.
+
+(* where the code asks every overlay address of the peer (AllowAll: roaming and handshake sources, static / resolver
+   results): none of them may deny the address *)
+Definition usable_all (c : config) (vpns : list addr) (x : ap) : bool :=
+  let a := unmap_addr (ap_addr x) in
+  negb (in_my c a) && global_allow c a && forallb (fun v => inside_allow c v a) vpns.
 
 Definition configured (c : config) (vpn : addr) : list ap :=
   flat_map (fun e => if addr_eqb (fst e) vpn then filter (fun a => should_add c [vpn] (ap_addr a)) (static_addrs (snd e)) else []) (cfg_static c).
@@ -55,6 +62,10 @@ Definition spec_ok (c : config) (s : lh) (o : lop) (ob : lout) : bool :=
           | Some (peers, r) =>
               present &&
               forallb (fun a => usable c peers a && negb (is_bad (rl_bad r) a)) addrs &&
+              (* an address that only the resolver results (static_host_map) supply must be allowed for EVERY overlay
+                 address the list is currently filtered for *)
+              forallb (fun a => if existsb (ap_eqb a) (rl_dns r) && negb (existsb (ap_eqb a) (cache_addrs (rl_cache r)))
+                                then usable_all c (rl_vpn r) a else true) addrs &&
               forallb (fun n => let '(_, (p, q, k)) := n in (p <=? 10) && (q <=? 10) && (k <=? 10)) counts &&
               (* a static host keeps its configured (admitted, not blocked) addresses *)
               forallb (fun a => is_bad (rl_bad r) a || existsb (ap_eqb a) addrs)
@@ -63,6 +74,8 @@ Definition spec_ok (c : config) (s : lh) (o : lop) (ob : lout) : bool :=
           end
       | None => negb present && negb (is_static c vpn)
       end
+  | LLearn vpns src, OBool took => if took then usable_all c vpns src else true
+  | LHsCheck vpns src, OBool ok => if ok then usable_all c vpns src else true
   | _, _ => true
   end.
 
